@@ -98,6 +98,15 @@ Example c12_nonvacuous_d7a :
     /\ closed s = true /\ sclosed s = true /\ at_rest s.
 Proof. eexists. vm_compute. repeat split. Qed.
 
+(* the same history one step earlier: the pop after the permit came back empty - the state in
+   which the code before the repair called unwrap() on None and panicked (finding D7) *)
+Definition tr_d7a_pop : list label :=
+  [Start 0 (OpGet STry false); Step 0; Start 1 OpClose; Step 1; Step 1; Step 1; Step 0].
+Example c12_d7_empty_pop_reachable :
+  exists s, run cfg_iter1 (init cfg_iter1) tr_d7a_pop = Some s
+    /\ pcof s 0 = GPopped false false None /\ closed s = true.
+Proof. eexists. vm_compute. repeat split. Qed.
+
 (* try_add past the size semaphore, close() runs completely, _add continues: handed back *)
 Definition tr_d7b : list label :=
   [Start 0 (OpAdd 0 false); Step 0; Start 1 OpClose; Step 1; Step 1; Step 1; Step 0].
